@@ -59,6 +59,11 @@ func ExtKinds() []BSpec {
 		{Kind: "prophet", S: []string{"dtn://p/"}, F: []uint64{0x3fe8000000000000}},
 		{Kind: "prophet", S: []string{"dtn://p/", "dtn://q/"}, F: []uint64{1, 0x3ff0000000000000}},
 		{Kind: "sig"},
+		// block type codes and block numbers on both sides of the CBOR width boundaries 23/24 and 255/256
+		{Kind: "unk", N: []uint64{23}, Len: 2, Num: 23},
+		{Kind: "unk", N: []uint64{24}, Len: 2, Num: 24},
+		{Kind: "unk", N: []uint64{255}, Len: 2, Num: 255},
+		{Kind: "unk", N: []uint64{256}, Len: 2, Num: 256},
 		{Kind: "unk", N: []uint64{200}, Len: 0},
 		{Kind: "unk", N: []uint64{201}, Len: 24},
 		{Kind: "unk", N: []uint64{65536}, Len: 256},
